@@ -235,6 +235,12 @@ class GroupBy:
                 factorize_in_chunks = (
                     factorize_large_inputs_in_chunks
                     and len(group_key) >= THRESHOLD_FOR_CHUNKED_FACTORIZE
+                    # the chunk-wise route hands typed NumPy arrays to compiled code; tz-aware
+                    # datetimes and nullable booleans only have an object form
+                    and not isinstance(
+                        getattr(group_key, "dtype", None),
+                        (pd.DatetimeTZDtype, pd.BooleanDtype),
+                    )
                 ) or chunked
 
             if factorize_in_chunks:
